@@ -503,6 +503,92 @@ Definition uv_loop_init (first_loop : bool) (l : ledger) (w : world) : out :=
       end
     end.
 
+(* ---- the timeout loop of uv__io_poll, src/unix/linux.c:1350-1620 ---------------------------
+   Only the arithmetic that decides how long epoll_pwait may block: base (1389), real_timeout,
+   the UV_METRICS_IDLE_TIME variant (reset_timeout / user_timeout: a first non-blocking call),
+   the nfds == 0 / -1 handling (1473-1489) and the update_timeout block (1601-1614).
+   The clock is virtual: [p_now] is loop->time - base, advanced by what an answer reports.
+   Answers of epoll_pwait: interrupted after [e] ms, timed out (waited the whole timeout), or
+   events after [e] ms (dispatch ends the function: nevents != 0, fewer than 1024 events).    *)
+Inductive pans := PIntr (e : Z) | PTimeout | PEvents (e : Z).
+Inductive pend := PeTimeout | PeEvents | PeBreak | PeStuck.
+
+Record pst := mkP {
+  p_now : Z;          (* loop->time - base after the last uv__update_time *)
+  p_real : Z;         (* real_timeout *)
+  p_timeout : Z;      (* timeout, the value passed to the next epoll_pwait *)
+  p_reset : bool;     (* reset_timeout *)
+  p_user : Z;         (* user_timeout *)
+  p_ok : bool         (* the answers so far reported 0 <= elapsed <= timeout of their call *)
+}.
+Record pres := mkR {
+  r_calls : list (Z * Z);   (* (timeout passed, loop->time - base at the call), newest first *)
+  r_blocked : Z;            (* loop->time - base when the function returns *)
+  r_end : pend;
+  r_ok : bool
+}.
+
+Definition elapsed_ok (t e : Z) : bool := (0 <=? e) && ((t <? 0) || (e <=? t)).
+
+(* nfds == 0 || nfds == -1 with reset_timeout != 0: timeout = user_timeout; reset_timeout = 0 *)
+Definition after_reset (s : pst) (now : Z) (ok : bool) : pst :=
+  if p_reset s then mkP now (p_real s) (p_user s) false (p_user s) ok
+  else mkP now (p_real s) (p_timeout s) false (p_user s) ok.
+
+(* update_timeout: None = leave the loop *)
+Definition update_timeout (s : pst) : option pst :=
+  if p_timeout s =? 0 then None
+  else if p_timeout s =? -1 then Some s
+  else
+    let real := p_real s - p_now s in            (* real_timeout -= (loop->time - base) *)
+    if real <=? 0 then None
+    else Some (mkP (p_now s) real real (p_reset s) (p_user s) (p_ok s)).
+
+(* the script is exhausted: every further call times out *)
+Definition io_poll_tail (s : pst) (log : list (Z * Z)) : pres :=
+  let t := p_timeout s in
+  let log := (t, p_now s) :: log in
+  if t <? 0 then mkR log (p_now s) PeStuck (p_ok s)
+  else if p_reset s then
+    match update_timeout (after_reset s (p_now s + t) (p_ok s)) with
+    | None => mkR log (p_now s + t) PeBreak (p_ok s)
+    | Some s' =>
+      let log := (p_timeout s', p_now s') :: log in
+      if p_timeout s' <? 0 then mkR log (p_now s') PeStuck (p_ok s)
+      else mkR log (p_now s' + p_timeout s') PeTimeout (p_ok s)
+    end
+  else mkR log (p_now s + t) PeTimeout (p_ok s).
+
+Fixpoint io_poll_loop (o : list pans) (s : pst) (log : list (Z * Z)) : pres :=
+  match o with
+  | [] => io_poll_tail s log
+  | a :: r =>
+    let t := p_timeout s in
+    let log := (t, p_now s) :: log in
+    match a with
+    | PEvents e =>
+      mkR log (p_now s + e) PeEvents (p_ok s && elapsed_ok t e)
+    | PTimeout =>
+      if t <? 0 then mkR log (p_now s) PeStuck (p_ok s)      (* assert(timeout != -1) *)
+      else if p_reset s then
+        match update_timeout (after_reset s (p_now s + t) (p_ok s)) with
+        | None => mkR log (p_now s + t) PeBreak (p_ok s)
+        | Some s' => io_poll_loop r s' log
+        end
+      else mkR log (p_now s + t) PeTimeout (p_ok s)          (* nfds == 0: return *)
+    | PIntr e =>
+      let ok := p_ok s && elapsed_ok t e in
+      match update_timeout (after_reset s (p_now s + e) ok) with
+      | None => mkR log (p_now s + e) PeBreak ok
+      | Some s' => io_poll_loop r s' log
+      end
+    end
+  end.
+
+Definition io_poll (metrics : bool) (timeout : Z) (o : list pans) : pres :=
+  io_poll_loop o (if metrics then mkP 0 timeout 0 true timeout true
+                  else mkP 0 timeout timeout false 0 true) [].
+
 (* ---- helpers for statements --------------------------------------------------- *)
 Fixpoint strip (o : list ans) : list ans :=
   match o with
